@@ -983,7 +983,71 @@ end Jwt.Base64
     return "Base64Code.lean", text, {"encode_step": step, "encode_tail": tail, "decode_arms": [(k, len(l)) for k, l in darms]}
 
 
-GENERATORS = [gen_base64, gen_alg, gen_common, gen_jwk, gen_ops, gen_cli, gen_conc, gen_ecframe, gen_ll, gen_base64code]
+def gen_digests(repo, build):
+    """which digest (and key kind) each provider function selects for each algorithm"""
+    out_tables = {}
+    info = {}
+    for path, fns in (("libjwt/openssl/sign-verify.c", ["openssl_sign_sha_hmac", "openssl_sign_sha_pem", "openssl_verify_sha_pem"]),
+                      ("libjwt/gnutls/sign-verify.c", ["gnutls_sign_sha_hmac", "gnutls_sign_sha_pem", "gnutls_verify_sha_pem"])):
+        src = open(os.path.join(repo, path)).read()
+        src = re.sub(r"/\*.*?\*/", " ", src, flags=re.S)
+        src = re.sub(r"//[^\n]*", " ", src)
+        for fn in fns:
+            body = func_body(src, r"\b%s\s*\([^)]*\)\s*\{" % fn)
+            m = re.search(r"switch\s*\(\s*jwt->alg\s*\)\s*\{", body)
+            if not m:
+                raise ExtractError("%s: switch (jwt->alg) not found" % fn)
+            # the first switch on jwt->alg is the digest selection
+            i, depth = m.end(), 1
+            while i < len(body) and depth:
+                depth += body[i] == "{"
+                depth -= body[i] == "}"
+                i += 1
+            sw = body[m.end():i - 1]
+            rows = []
+            for cm in re.finditer(r"((?:case\s+JWT_ALG_\w+\s*:\s*)+)(.*?)(?=case\s+JWT_ALG_|default\s*:|$)", sw, flags=re.S):
+                labels = re.findall(r"JWT_ALG_\w+", cm.group(1))
+                stmts = cm.group(2)
+                am = re.search(r"\balg\s*=\s*([A-Za-z_0-9]+)", stmts)
+                if not am:
+                    raise ExtractError("%s: no `alg = ...` under %s" % (fn, labels))
+                tok = am.group(1)
+                km = re.search(r"\b(?:type|pk_alg)\s*=\s*([A-Za-z_0-9]+)", stmts)
+                kind_tok = km.group(1) if km else ""
+                dm = re.search(r"(sha|SHA)_?(256|384|512)", tok)
+                if dm:
+                    digest = "sha" + dm.group(2)
+                elif "JWT_ALG_EDDSA" in labels and (tok in ("NULL", "EVP_md_null") or "md_null" in tok or "gnutls_pubkey_get_pk_algorithm" in tok or "gnutls_privkey_get_pk_algorithm" in tok or "EDDSA" in tok.upper()):
+                    digest = "by-key"
+                else:
+                    raise ExtractError("%s: digest token %r not recognised" % (fn, tok))
+                up = (tok + " " + kind_tok).upper()
+                kind = "pss" if "PSS" in up else "rsa" if "RSA" in up else "ec" if ("EC" in up.replace("SECP", "") and "ECDSA" in up or "PKEY_EC" in up or "PK_EC" in up) else \
+                    "eddsa" if digest == "by-key" else "mac"
+                for lab in labels:
+                    if lab == "JWT_ALG_EDDSA":
+                        rows.append((lab, "by-key", "eddsa"))      # the digest is fixed by the curve of the key, not chosen here
+                    else:
+                        rows.append((lab, digest, kind))
+            if not rows:
+                raise ExtractError("%s: no cases" % fn)
+            out_tables[fn] = rows
+            info[fn] = rows
+    def tbl(rows):
+        return "[" + ", ".join('(.%s, "%s", "%s")' % (ALG_LEAN[a], d, k) for a, d, k in rows) + "]"
+    text = f"""/- GENERATED by tie/extract.py from libjwt/openssl/sign-verify.c and libjwt/gnutls/sign-verify.c -- do not edit.
+   For each provider entry point, the digest and the kind of key operation its `switch (jwt->alg)` selects per algorithm.
+   Regenerated from /repo on every check run; Jwt/Props/C12.lean proves the six tables agree with RFC 7518 and with each other. -/
+import Jwt.AlgType
+namespace Jwt.Generated
+
+{chr(10).join("def %sDigests : List (Alg × String × String) := %s%s" % (fn.replace("_sha_", "_").replace("openssl_", "ossl").replace("gnutls_", "gtls").replace("_", ""), tbl(rows), chr(10)) for fn, rows in out_tables.items())}
+end Jwt.Generated
+"""
+    return "DigestTables.lean", text, info
+
+
+GENERATORS = [gen_base64, gen_alg, gen_common, gen_jwk, gen_ops, gen_cli, gen_conc, gen_ecframe, gen_ll, gen_base64code, gen_digests]
 
 
 def main():
